@@ -6,7 +6,8 @@ Definition model (p : input) : obs :=
   mkObs (r_events r) (r_stop r) (r_raised r) (r_log r) (r_unrun r) (r_pending r)
         (list_eqb Nat.eqb (r_observers r) (initial_observers p)) (r_cleanups_left r).
 
-(* what the statement pins down.  It is silent about what propagates out of run() (that is C01's
+(* what the statement pins down = the items of the property's observe_at (result event log with the stop
+   request, stage log with virtual timestamps, getDelayedCalls(), observers before/after).  It is silent about what propagates out of run() (that is C01's
    KeyboardInterrupt clause) and about the cleanups that stay registered (after a cut nothing is claimed;
    otherwise the stage log already shows every cleanup running exactly once): alpha forgets both, so a
    change confined to them is not reported against C14 *)
